@@ -1,7 +1,7 @@
 (* C06 — UDP multiplexer wire codec is exact, segmentation-invariant and resynchronising.
    Statements only; proofs live in Proofs/UdpCodecProofs.v. *)
 From Coq Require Import List NArith.
-From TT Require Import Lib.Res Lib.BytesL Model.UdpCodec Spec.UdpWire Proofs.UdpCodecProofs.
+From TT Require Import Lib.Res Lib.BytesL Model.UdpCodec Spec.UdpWire Proofs.UdpCodecProofs Generated.UdpCodecFacts.
 Import ListNotations.
 Open Scope N_scope.
 
@@ -75,3 +75,10 @@ Example ex_run_cut :
   | _ => False
   end.
 Proof. vm_compute. reflexivity. Qed.
+
+(* the decoder still enters each Dropping state with the modelled number of bytes to skip, and
+   applies the modelled size limit *)
+Theorem decoder_code_facts :
+  UDP_DECODER_DROP_LENGTHS_AS_MODELLED = true /\ UDP_DECODER_SIZE_LIMIT_AS_MODELLED = true.
+Proof. split; exact eq_refl. Qed.
+Print Assumptions decoder_code_facts.
